@@ -146,7 +146,7 @@ def modify(newlen: int) -> bool:
             if isinstance(r, udfmod.UDFFileEntry):
                 allowed.append((r.extent_location() * 2048, r.extent_location() * 2048 + 2048))
     ok = True
-    rec_writes = 0
+    written = {}
     for (lo, hi, d) in img.writes:
         inside = False
         for (a, b) in allowed:
@@ -154,13 +154,17 @@ def modify(newlen: int) -> bool:
         ok = ok & inside
         for (off, l) in recs:
             if h.concrete(lo) and lo == off:
-                rec_writes += 1
+                written[off] = True
                 # the rewritten record carries the new length (both byte orders) at the place where the record really is
                 if not isinstance(d, h.Span):
                     ok = ok & (len(d) == l)
                     ok = ok & (d[10] + 256 * d[11] + 65536 * d[12] + 16777216 * d[13] == newlen)
                     ok = ok & (d[17] + 256 * d[16] + 65536 * d[15] + 16777216 * d[14] == newlen)
-    ok = ok & (rec_writes == len(recs))
+    # every record naming the file carries the new length afterwards: it was rewritten, or it already said so (zero-length files are not
+    # re-linked by open_fp, so a 0 -> 0 modification rewrites only the addressed record; the others already record 0)
+    for (off, l) in recs:
+        if off not in written:
+            ok = ok & (old == newlen)
     return h.post(ok)
 
 
